@@ -647,4 +647,9 @@ def bytes_to_str(b):
 
 
 def unquote_to_wsgi_str(string):
+    # the request target was decoded as latin-1: go back to its bytes, so
+    # that raw non-ASCII bytes are passed through instead of being
+    # re-encoded as UTF-8 by unquote_to_bytes()
+    if isinstance(string, str):
+        string = string.encode('latin-1')
     return urllib.parse.unquote_to_bytes(string).decode('latin-1')
